@@ -35,11 +35,15 @@ pub fn paragraphs() -> Vec<String> {
     // all of them mixed
     let mixed = ["a\tb", "\u{7}c", "\u{1b}[1md", "e\u{1}", "日本", "pl", "é"];
     out.push((0..120).map(|i| mixed[i % mixed.len()]).collect::<Vec<_>>().join(" "));
+    // one long fragment of each style (a quoted invalid value can be a whole sentence)
+    for sty in 0..4 {
+        out.push(format!("{}{}{}", WHOLE, sty, std::iter::repeat("wörd of it").take(40).collect::<Vec<_>>().join(" ")));
+    }
     out
 }
 
 pub const FRAGS: [&str; 13] = ["word", "WwwwwwwwwwwwwwwwwwwwwwwwwwwwwwwwwwwwwwwwwwwwwwwwwwwwwwwwwwwwwwwwwwwwwwwwwwwwwwwwwwwwwwwwwwwwwwwwwwwwwwwwwwwwwwwwwwwwwwwwwW", " ", "\n", "\n\n", "\n ", "\n    codeline", "é", "日本語", "\t", "\u{a0}", "\u{1b}[1m", "--flag"];
-pub const SKELETONS: usize = 12;
+pub const SKELETONS: usize = 13;
 const UNWRAPPED: usize = 65535;
 
 fn long_name(n: usize) -> String {
@@ -61,7 +65,20 @@ pub const SEP: char = '\u{1f}';
 /// the same with another rotation of styles: nested document, text, nested document, emphasis
 pub const SEP2: char = '\u{1e}';
 
+/// a text starting with this character and a digit is ONE fragment of style text / literal /
+/// emphasis / invalid (the digit), however long it is
+pub const WHOLE: char = '\u{1d}';
+
 fn spec(text: &str) -> DocSpec {
+    if let Some(rest) = text.strip_prefix(WHOLE) {
+        let sty = match rest.chars().next() {
+            Some('1') => Sty::Lit,
+            Some('2') => Sty::Em,
+            Some('3') => Sty::Inv,
+            _ => Sty::Text,
+        };
+        return DocSpec(vec![(sty, rest.chars().skip(1).collect())]);
+    }
     if text.contains(SEP2) {
         let stys = [Sty::Nested, Sty::Text, Sty::Nested, Sty::Em];
         return DocSpec(text.split(SEP2).enumerate().map(|(i, f)| (stys[i % 4], f.to_string())).collect());
@@ -111,6 +128,8 @@ pub fn skeleton(k: usize, text: &str) -> Opts {
         9 => Opts::new(P::Seq(vec![P::Fallback(P::Arg { names: Names { shorts: vec!['e'], longs: vec!["env-backed".into()], envs: vec!["BPAFMC_W".into()], help: Some(d), long_first: false }, ty: Ty::Os, adjacent: false, metavar: "E".into() }.bx(), Val::s("dflt"), true), plain])),
         // adjacent heading
         10 => Opts::new(P::Seq(vec![P::Adj(vec![P::ReqFlag(Names::long("point").help("adjacent flag help")), P::Pos { ty: Ty::Os, strict: Strict::Any, metavar: "X".into(), help: Some(d) }]).opt(), plain])),
+        // the text is a custom usage of an item (it replaces the item in the usage line)
+        12 => Opts::new(P::Seq(vec![P::CustomUsage(sw(Names::short('a').help("item with a custom usage")).bx(), d), plain])),
         // many items: usage line wraps
         11 => Opts::new(P::Seq(vec![sw(Names::long(&long_name(12)).help("one")), sw(Names { help: Some(d.clone()), ..Names::long(&(long_name(12) + "b")) }), sw(Names::long(&(long_name(12) + "c"))), sw(Names::long(&(long_name(12) + "d"))), sw(Names::long(&(long_name(12) + "e"))), plain])),
         _ => unreachable!(),
@@ -174,6 +193,15 @@ pub fn check_text(unit: &Value, k: usize, text: &str, widths: &[usize], only_wid
     // an error document
     if let Some((d, _)) = help_doc(&p, &["--no-such-flag", "word"]) {
         docs.push(("error", d));
+    }
+    // an error document quoting a whole sentence the user typed as one item (once per skeleton)
+    if text.starts_with(WHOLE) && text[WHOLE.len_utf8()..].starts_with('0') {
+        if let Some((d, _)) = help_doc(&p, &["--no-such-flag=a sentence of many short words that the user typed as one single item of the line and that is quoted back in the message as it is"]) {
+            docs.push(("error-sentence", d));
+        }
+        if let Some((d, _)) = help_doc(&p, &["word", "a sentence of many short words that the user typed as one single item of the line and that is quoted back in the message as it is", "more"]) {
+            docs.push(("error-sentence-word", d));
+        }
     }
     ctx.s.states += 1;
     for (what, doc) in &docs {
@@ -366,6 +394,6 @@ impl Check for C13 {
         "documents = help (and sub-command help, and an error message) of 12 layout skeletons (item help with term widths around the tab stop, descr, header+footer, group title, positional help, command help, env row + fallback suffix, adjacent heading, long usage line) with the text slot ranging over EVERY concatenation of <=3 (thorough 4) fragments from {word, 120-char word, space, newline, blank line, newline+space, code line, é, 日本語, tab, NBSP, ESC sequence, --flag}, as one plain string and as a sequence of separately styled tokens (two rotations: text / nested document / literal / emphasis and nested document / text / nested document / emphasis; quick: every seventh width); each document rendered at every width (quick: 1..100, 120, 200, 300; thorough: 1..300) via the Display width and at 65535 as 'unwrapped'; (a) identical once whitespace is removed, (b) for widths >= 40 no line longer than width+2 unless what follows the indentation/term is a single unbreakable word or it is a code line, (c) monochrome(false) equals monochrome(true) of the same definition with the text cut at its first blank line; evaluation = one render; non-trivial = render at width > 1 satisfying (a),(b); plus nine line-filling paragraphs of short words carrying control / zero-width / wide characters at every width, and the env row showing a value with a blank line".into()
     }
     fn bounds(&self, tier: Tier) -> Value {
-        json!({"fragments_per_string": tier.pick(3, 4), "widths": tier.pick("1..100, 120, 200, 300", "1..300"), "skeletons": 12})
+        json!({"fragments_per_string": tier.pick(3, 4), "widths": tier.pick("1..100, 120, 200, 300", "1..300"), "skeletons": 13})
     }
 }
